@@ -5,6 +5,7 @@ package engine
 
 import (
 	"fmt"
+	"sync"
 	"go/ast"
 	"go/token"
 	"go/types"
@@ -31,6 +32,8 @@ type World struct {
 	Preds    map[string]*PredDef
 	SpecFns  map[string]*SpecFn
 	Axioms   []*Axiom
+	assignedOutside map[string]bool
+	assignMu        sync.Mutex
 	Repo     string
 	LoadErrs []string
 }
